@@ -221,7 +221,7 @@ class Body:
             return self._cache[key]
         self._cache[key] = ("tmp", l)  # cycle guard
         bi, si, node = ds[0]
-        if through_vars == "pure" and name is not None and si != "term":
+        if through_vars in ("pure", "desc") and name is not None and si != "term":
             rv = node["rv"]
             if rv["k"] == "use" and rv["a"]["k"] in ("copy", "move") and "*" in rv["a"]["pl"]["p"]:
                 # a named variable holding a value loaded from memory: the place may have been written since
@@ -239,6 +239,9 @@ class Body:
                 r = ("ref", ("deref", ("deref", args[0])))
             else:
                 r = ("call", cal, args, (bi,))
+            if through_vars == "pure" and name is not None and self._reads_mutable(r):
+                # `let n = v.len()` with v: &mut Vec: v may change after n got its value
+                r = ("var", name, l)
         else:
             r = self.sym_rv(node["rv"], depth + 1, through_vars)
             if through_vars == "pure" and name is not None and self._reads_mutable(r):
